@@ -139,7 +139,8 @@ theorem eq_spec (a b : EdElem) (va : (ed25519Spec c h).Valid a) (vb : (ed25519Sp
 theorem neg_eq : (edGroup c).neg = Ed25519.negate c := rfl
 
 /-- the scalar `Element.negate` multiplies by -/
-theorem negate_scalar_eq (L : ℤ) : Ed.negate_scalar L = L - 1 := rfl
+theorem negate_scalar_eq (L : ℤ) : Ed.negate_scalar L = L - 1 := by
+  unfold Ed.negate_scalar; omega
 
 end Ed25519Spec
 
